@@ -60,12 +60,12 @@ def _md(a, b):
 
 
 # ---------------------------------------------------------------- space
-U_CTX = ["ptw:exp", "mat", "sum", "dl:u", "gauss_d", "ham", "esmul", "einsum", "vcge", "get:u", "pinsVC", "pinsES",
+U_CTX = ["ptw:exp", "mat", "sum", "dl:u", "gauss_d", "ham", "ham0", "esmul", "einsum", "vcge", "get:u", "pinsVC", "pinsES",
          "jaxM"]
 B_CTX = ["add", "mul", "vdot", "pair", "madd", "mmul", "eadd"]
-U_TINY = ["ptw:exp", "einsum", "gauss_d", "ham"]
+U_TINY = ["ptw:exp", "einsum", "gauss_d", "ham", "ham0"]
 B_TINY = ["mul", "pair", "madd", "eadd"]
-U_MT = ["ptw:exp", "mat", "dl:u", "mscale", "get:u", "get:v", "einsum", "gaussM", "ham"]
+U_MT = ["ptw:exp", "mat", "dl:u", "mscale", "get:u", "get:v", "einsum", "gaussM", "ham", "ham0"]
 B_MT = ["pair", "pairsub", "madd", "msub"]
 MIXED_MARKERS = ('"VCab"', '"pinsVC"', '"vcge"')
 _space_cache = {}
@@ -117,7 +117,7 @@ def space(tier):
         add("multi-domain-target sums and differences (linear and nonlinear), <=3 nodes", ["a", "b", "c"], U_MT, B_MT,
             3, grid=(0,))
         add("MultiLinearEinsum, 3 operands, all key orders (vectors), <=1 node", X4.ME3_VEC,
-            ["ptw:exp", "sum", "gauss_d", "ham"], [], 1, grid=(0,))
+            ["ptw:exp", "sum", "gauss_d", "ham", "ham0"], [], 1, grid=(0,))
     else:
         add("full alphabet, <=1 node", L3 + XL, full, c03.BINARY, 1, c03.WRAPPERS)
         add("full alphabet, <=2 nodes, leaves a,b,c", ["a", "b", "c"], full, c03.BINARY, 2, c03.WRAPPERS, grid=(0,))
@@ -130,7 +130,7 @@ def space(tier):
         add("multi-domain-target sums and differences (linear and nonlinear), <=4 nodes", ["a", "b", "c"], U_MT, B_MT,
             4, grid=(0,))
         add("MultiLinearEinsum, 3 operands, all key orders (vectors), <=2 nodes", X4.ME3_VEC,
-            ["ptw:exp", "sum", "gauss_d", "ham"], [], 2, grid=(0,))
+            ["ptw:exp", "sum", "gauss_d", "ham", "ham0"], [], 2, grid=(0,))
     _space_cache[tier] = blocks
     return blocks
 
